@@ -62,7 +62,7 @@ def main(argv):
                     hc = HashClient(servers, socket_module=S.sm, key_prefix=pfx, use_pooling=pooling, default_noreply=False, retry_attempts=0, dead_timeout=0)
                     names = sorted(hc.clients.keys())
                     S.begin_call(0, {})
-                    n = rng.choice([0, 1, 2, 7, 20, 50])
+                    n = [0, 1, 2, 7, 20, 50][rep % 6]        # every size for every configuration
                     keys = []
                     for i in range(n):
                         t = rng.randrange(4)
@@ -184,6 +184,27 @@ def main(argv):
                                 singles[inner(k)] = v
                         if gm != singles:
                             ctx.violation("get_many differs from the per-key gets", dict(case0, get_many=repr(gm)[:120], gets=repr(singles)[:120]), tags=["op:get_many"])
+                    # gets_many: the same routing, `gets` on the wire for every key set size (1 included), and it equals the per-key gets
+                    reset()
+                    try:
+                        gsm = hc.gets_many(keys) if keys else {}
+                    except Exception as e:
+                        ctx.violation("gets_many raised on healthy servers with legal keys", dict(case0, keys=repr(keys)[:100], error=repr(e)[:100]), tags=["op:gets_many"])
+                        continue
+                    seen_cmds = [(name, cmd[1], wk) for name, srv in server_logs(S).items() for cmd in srv.cmds if cmd[0] == "fetch" for wk in keys_seen(cmd)]
+                    obs_g = sorted((name, wk) for name, _, wk in seen_cmds)
+                    if obs_g != expected or any(verb != b"gets" for _, verb, _ in seen_cmds):
+                        ctx.violation("gets_many did not send `gets` for each key exactly once to its server (and to no other)",
+                                      dict(case0, keys=repr(keys)[:120], verbs=sorted({v_.decode() for _, v_, _ in seen_cmds}), observed=[(a, hx(b)) for a, b in obs_g][:8]), tags=["op:gets_many"])
+                        continue
+                    if distinct_inner:
+                        singles_g = {}
+                        for k in keys:
+                            vg = hc.gets(k)
+                            if vg is not None and vg != (None, None):
+                                singles_g[inner(k)] = vg
+                        if gsm != singles_g:
+                            ctx.violation("gets_many differs from the per-key gets", dict(case0, gets_many=repr(gsm)[:120], gets=repr(singles_g)[:120]), tags=["op:gets_many"])
                     # Lean: the grouping
                     if keys and all(isinstance(routing(k), str) for k in keys):
                         ktoks = "|".join(f"{cps(routing(k))}~{key_tok(inner(k))}" for k in keys if isinstance(routing(k), str))
